@@ -726,15 +726,18 @@ def main(tier, replay=None):
         impl_in.append(fc.field_line())
         impl_in += [l[1] for l in fc.lines]
     vf.log("[C05] proofs+builds+generation: %.1fs since start" % (time.time() - chk.t0))
-    rc, iout, ierr = vf.run_lines(himpl, "\n".join(impl_in) + "\n", timeout=(300 if tier == "quick" else 1500))
+    rc, iout, ierr = run_impl(himpl, "\n".join(impl_in) + "\n", 240 if tier == "quick" else 3600, 1800 if tier == "quick" else 7200)
     vf.log("[C05] implementation harness: %.1fs since start" % (time.time() - chk.t0))
+    if rc == 124:
+        inconclusive(chk, "GFqDom harness reached the wall-clock limit after %d/%d lines" % (len(iout), len(impl_in)))
     if rc != 0 or len(iout) != len(impl_in):
         # the library crashed or hung on the line after the last answered one: that line is the failing input
         n = len(iout)
         fl = [l for l in impl_in[:n + 1] if l.startswith("field")]
-        chk.fail_input("GFqDom (crash or hang inside the library)", "crash" if rc != 124 else "hang",
-                       {"field": fl[-1] if fl else None, "line": impl_in[n] if n < len(impl_in) else None},
-                       "an answer", "rc=%s after %d/%d lines" % (rc, n, len(impl_in)), ierr[-500:])
+        if rc != 124:
+            chk.fail_input("GFqDom (crash or hang inside the library)", "hang" if rc in CPU_KILLED else "crash",
+                           {"field": fl[-1] if fl else None, "line": impl_in[n] if n < len(impl_in) else None},
+                           "an answer", "rc=%s after %d/%d lines" % (rc, n, len(impl_in)), ierr[-500:])
         # the fields answered completely before that are still compared (they usually show the element-level cause)
         done, pos0 = [], 0
         for fc in fields:
@@ -772,7 +775,7 @@ def main(tier, replay=None):
 
     def run_model():
         t0 = time.time()
-        box["m"] = vf.run_lines(drv, "\n".join(model_in) + "\n", timeout=1500)
+        box["m"] = vf.run_lines(drv, "\n".join(model_in) + "\n", timeout=(1800 if tier == "quick" else 7200))
         vf.log("[C05] extracted model: %.1fs" % (time.time() - t0))
     threads = []
     if drv:
@@ -793,7 +796,10 @@ def main(tier, replay=None):
     mout = None
     if drv:
         rc, mout, merr = box["m"]
-        if rc != 0 or len(mout) != len(model_in):
+        if rc == 124:
+            inconclusive(chk, "extracted model reached the wall-clock limit after %d/%d lines (correspondence not compared)" % (len(mout), len(model_in)))
+            mout = None
+        elif rc != 0 or len(mout) != len(model_in):
             chk.broke("model driver failed (rc=%s, %d/%d lines)" % (rc, len(mout), len(model_in)), merr[-2000:])
             mout = None
     # 6. comparison
@@ -1046,6 +1052,13 @@ def main(tier, replay=None):
     chk.cov["fields_with_full_table_check"] = nfields_tab
     chk.cov["fields_accepted_by_verified_checker"] = nchecked
     chk.cov["distribution"] = dist
+    # every public call form driven by the harnesses with its case count: GFqDom scalar forms (op:), the same in every
+    # aliasing pattern (opa:), array forms per length class (arr:), dotprod (dot:), init/convert per source type (cvt:),
+    # and the forms of Extension / GFqExt / GFqExtFast / GF2 (form:)
+    chk.cov["call_forms"] = {("GFqDom::" + k.split(":", 1)[1] + {"op": "", "opa": "[aliased]", "arr": "[array]", "dot": "[dotprod]", "cvt": "[init/convert]"}[k.split(":", 1)[0]])
+                             if not k.startswith("form:") else k[5:]: v
+                             for k, v in sorted(dist.items()) if k.split(":", 1)[0] in ("op", "opa", "arr", "dot", "cvt", "form")}
+    chk.cov["ways_of_obtaining_the_field_object"] = {k: v for k, v in sorted(dist.items()) if k.startswith(("way:", "ext:way:", "gext:way:"))}
     return chk.finish()
 
 
@@ -1057,7 +1070,10 @@ def vec_part(chk, rng, himpl, dist):
         q = p ** k
         xs = [0, 1, 2, q - 1, q, q + 5, p ** (2 * k) - 1] + [rng.range(1, q * q) for _ in range(12)]
         lines = ["field %d auto %d %d" % (T, p, k)] + ["cvt vec %d" % x for x in xs]
-        rc, out, err = vf.run_lines(himpl, "\n".join(lines) + "\n", timeout=300)
+        rc, out, err = run_impl(himpl, "\n".join(lines) + "\n", 120, 1200)
+        if rc == 124:
+            inconclusive(chk, "init(Rep&,Vector) process for GF(%d^%d) reached the wall-clock limit" % (p, k))
+            continue
         if rc != 0 or len(out) != len(lines):
             chk.fail_input("GFqDom::init(Rep&,Vector)", "crash", {"field": lines[0], "lines": lines[1:]}, "a result per line", "rc=%s, %d/%d lines" % (rc, len(out), len(lines)))
             continue
@@ -1102,6 +1118,21 @@ def ff_subexponent_max(p, e):
     while f > 1 and e % f:
         f -= 1
     return f
+
+
+def run_impl(binary, text, cpu_s, wall_s):
+    """run an implementation harness under a CPU-time limit and a generous wall-clock limit.  A hang inside the library
+    burns CPU and is killed by SIGXCPU after cpu_s seconds of CPU whatever the machine load is (verdict: hang); reaching
+    the wall-clock limit instead says nothing about the library (verdict: inconclusive, rc 124)."""
+    return vf.run_lines("/bin/sh", text, timeout=wall_s, args=("-c", 'ulimit -t %d; exec "$0"' % cpu_s, binary))
+
+
+CPU_KILLED = (-24, -9, 152, 137)
+
+
+def inconclusive(chk, what):
+    chk.cov.setdefault("inconclusive", []).append(what)
+    vf.log("[C05] INCONCLUSIVE (time-out of the check's own tooling, not a verdict on the property): " + what)
 
 
 def maxn_numerator():
@@ -1312,15 +1343,18 @@ def ext_part(chk, rng, tier, dist, drv=None):
             xs = [ez() if not rng.chance(1, 5) else q - 1 for _ in range(n)]
             ys = [ez() if not rng.chance(1, 5) else q - 1 for _ in range(n)]
             L.append(("gdot %d | %s | %s" % (n, " ".join(map(str, xs)), " ".join(map(str, ys))), "gdot", (xs, ys)))
-    rc, out, err = vf.run_lines(h, "\n".join(x[0] for x in L) + "\n", timeout=(300 if tier == "quick" else 900))
+    rc, out, err = run_impl(h, "\n".join(x[0] for x in L) + "\n", 240 if tier == "quick" else 1800, 1800 if tier == "quick" else 5400)
     out = [o for o in out if not o.startswith("WARNING")]
+    if rc == 124:
+        inconclusive(chk, "Extension/GFqExt/GF2 harness reached the wall-clock limit after %d/%d lines" % (len(out), len(L)))
+        return
     if rc != 0 or len(out) != len(L):
         n = len(out)
         fl = [x[0] for x in L[:n + 1] if x[1] in ("ext", "gext")]
-        chk.fail_input("Extension/GFqExt/GF2 (crash or hang inside the library)", "crash" if rc != 124 else "hang",
+        chk.fail_input("Extension/GFqExt/GF2 (crash or hang inside the library)", "hang" if rc in CPU_KILLED else "crash",
                        {"field": fl[-1] if fl else None, "line": L[n][0] if n < len(L) else None},
                        "an answer", "rc=%s after %d/%d lines" % (rc, n, len(L)), err[-500:])
-        return
+        L = L[:n]          # the answered prefix is still compared (it usually shows the element-level cause)
     P = None
     ctx = None
     l2p = None
@@ -1328,8 +1362,30 @@ def ext_part(chk, rng, tier, dist, drv=None):
     gq = []          # (impl line, impl answer, model line) of the GF2 operations (GF2Model.v)
     gmax = {}        # field -> (p, k, bits, maxdot()) as the implementation reports them
     qq = []          # (field, impl line, impl p-adic answer, model line) of the q-adic decodes (QadicModel.v)
+    def form(name):
+        dist["form:" + name] = dist.get("form:" + name, 0) + 1
+    gcls = "GFqExtFast"
     for (line, kind, meta), got in zip(L, out):
         dist["ext:" + kind] = dist.get("ext:" + kind, 0) + 1
+        # per call form (class::member[overload / pattern kind]) case counts
+        if kind == "gf2":
+            form("GF2::%s[%s]" % (meta[0], "BitReference" if " b " in line else "Element&"))
+        elif kind == "gf2a":
+            form("GF2::%s[%s,aliased]" % (meta[0], "BitReference" if " b " in line else "Element&"))
+        elif kind == "eop":
+            form("Extension::" + meta)
+        elif kind == "eopa":
+            form("Extension::%s[aliased]" % meta[0])
+        elif kind == "gext":
+            gcls = "GFqExtFast" if meta[0] == "fast" else "GFqExt"
+        elif kind == "gop":
+            form("%s::%s" % (gcls, meta[0]))
+        elif kind == "gopa":
+            form("%s::%s[aliased]" % (gcls, meta[0]))
+        elif kind in ("gconv", "ginit", "gdot", "gdotw", "groundtrip", "gflt", "ginitul", "grand"):
+            form("%s::%s" % (gcls, {"gconv": "convert(double&)", "ginit": "init(double)", "gdot": "init(double)[sum of products]",
+                                    "gdotw": "init(double)[maxdot() worst-case products]", "groundtrip": "init(convert())",
+                                    "gflt": "init(float)/convert(float&)", "ginitul": "init(unsigned long)", "grand": "random"}[kind]))
         if kind == "gf2desc":
             chk.count(("gf2desc", line), nontrivial=False)
             if got != "2 2 2 2 0 1 1 2 2 0 1 2 2 2":
@@ -1460,6 +1516,9 @@ def ext_part(chk, rng, tier, dist, drv=None):
                 chk.fail_input("Extension::" + v, "scalar", case, e, got, "result differs from polynomial arithmetic modulo the stored irreducible")
             elif v in XCODE and isinstance(P, PF):
                 xq.append((ctx, line, got, "xop %d %d %d %d %d %d %d" % (P.p, P.k, case["irred"], XCODE[v], a[0], a[1], a[2])))
+            elif v in ("inv", "invin", "div", "divin") and isinstance(P, PF):
+                # Poly1Dom::invmod as modelled in ExtModel.v (theorem C05_extension_inv_div_partial); -1 = the model has no answer
+                xq.append((ctx, line, got, "xinv %d %d %d %d %d %d" % (P.p, P.k, case["irred"], 0 if v.startswith("inv") else 1, a[0], a[1])))
         elif kind == "eopa":
             if P is None:
                 continue
@@ -1472,6 +1531,8 @@ def ext_part(chk, rng, tier, dist, drv=None):
                                "the call with destination/operands aliased as in the pattern differs from polynomial arithmetic modulo the stored irreducible")
             elif ee is not None and v in XCODE and isinstance(P, PF):
                 xq.append((ctx, line, got, "xop %d %d %d %d %d %d %d" % (P.p, P.k, P.fnum(), XCODE[v], ea, eb, ec)))
+            elif ee is not None and v in ("inv", "invin", "div", "divin") and isinstance(P, PF):
+                xq.append((ctx, line, got, "xinv %d %d %d %d %d %d" % (P.p, P.k, P.fnum(), 0 if v.startswith("inv") else 1, ea, eb)))
         elif kind == "gext":
             cls, p, k, bits, way, modout, gmod = meta
             ctx = "GFqExt%s<int32_t>/%s GF(%d^%d)" % ("Fast" if cls == "fast" else "", way, p, k)
@@ -1613,8 +1674,10 @@ def ext_part(chk, rng, tier, dist, drv=None):
             for ctxg, (pp, kk, bb, mx) in sorted(gmax.items()):
                 mq.append(("maxdot of " + ctxg, str(mx), "qmaxn %d %d %d" % ((1 << bb) - (1 if num == "_MASK" else 0), pp, kk)))
         allq = [(l, g_, m) for (l, g_, m) in gq] + [(c + " " + l, g_, m) for (c, l, g_, m) in qq] + mq
-        rc, mo, merr = vf.run_lines(drv, "\n".join(x[2] for x in allq) + "\n", timeout=900)
-        if rc != 0 or len(mo) != len(allq):
+        rc, mo, merr = vf.run_lines(drv, "\n".join(x[2] for x in allq) + "\n", timeout=1800)
+        if rc == 124:
+            inconclusive(chk, "extracted GF2 / q-adic model reached the wall-clock limit")
+        elif rc != 0 or len(mo) != len(allq):
             chk.broke("model driver failed on the GF2 / q-adic lines (rc=%s, %d/%d lines)" % (rc, len(mo), len(allq)), merr[-1000:])
         else:
             dist["gf2:model-correspondence"] = len(gq)
@@ -1629,8 +1692,10 @@ def ext_part(chk, rng, tier, dist, drv=None):
     if drv and xq:
         step = max(1, len(xq) // (12000 if tier == "quick" else 60000))
         xs = xq[::step]
-        rc, mo, merr = vf.run_lines(drv, "\n".join(x[3] for x in xs) + "\n", timeout=600)
-        if rc != 0 or len(mo) != len(xs):
+        rc, mo, merr = vf.run_lines(drv, "\n".join(x[3] for x in xs) + "\n", timeout=1800)
+        if rc == 124:
+            inconclusive(chk, "extracted Extension model reached the wall-clock limit")
+        elif rc != 0 or len(mo) != len(xs):
             chk.broke("model driver failed on the Extension operations (rc=%s, %d/%d lines)" % (rc, len(mo), len(xs)), merr[-1000:])
         else:
             dist["ext:model-correspondence"] = len(xs)
